@@ -64,8 +64,9 @@ def budget(tier):
 
 @st.composite
 def st_case(draw, tier, p_restricted=0, p_mat=1, p8=True):
-    S = draw(st.sampled_from([0, 0, 2]))
-    T = 1
+    # S: engine of the upstream program (and the preferred engine of most requests), T: engine the tree is rooted in
+    # (0 = SQL, 1 / 2 = iteration engines); one tree in five is rooted in the SQL engine over an iteration-engine source
+    S, T = draw(st.sampled_from([(0, 1), (0, 1), (0, 1), (0, 1), (2, 1), (2, 1), (1, 0), (2, 0)]))
     up_cfg = Cfg(
         engines=(S,),
         max_ops=3,
@@ -114,8 +115,9 @@ def st_case(draw, tier, p_restricted=0, p_mat=1, p8=True):
         if draw(st.integers(0, 9)) < p_mat:
             node = ("mat", base, f"m{counter}")
             counter += 1
-        elif draw(st.integers(0, 11)) == 0 and base[0] != "mark":
+        elif T != 0 and draw(st.integers(0, 11)) == 0 and base[0] != "mark":
             # a user-defined marker relation (documented extension point) somewhere downstream of the transfer
+            # (iteration engines only: the SQL engine's conform() drops markers it does not know)
             node = ("mark", base)
         else:
             node = draw(st_unary_node(base, cols, universe, UNARY, cfg))
@@ -190,7 +192,7 @@ def run_case(case, stats):
 
     universe, leaves, S, base, final, *rest = case
     preprocess = bool(rest and rest[0])
-    T = 1
+    T = engine_of(base, leaves)
     third = ({0, 1, 2} - {S, T}).pop()
     if final[0] == "join":
         full = ("join", ("leaf", final[2][1]), base, final[3]) if final[4] else ("join", base, final[2], final[3])
@@ -351,7 +353,8 @@ def run_case(case, stats):
                     stats.c["sel-after-join:compared"] += 1
         # a user-defined operation (extension point: RowFilter subclass that keeps the base-class commute()) requested
         # with a preferred engine: it cannot be moved, so it must end up in the tree (or the call must raise EngineError)
-        if not preprocess:
+        if not preprocess and T != 0:
+            # (trees rooted in the SQL engine are left out: it has no translation for user-defined operations at all)
             flt = custom_filter()(2)
             for pref in (p for p in (S, third) if p != 0):
                 for bits in range(8):
@@ -456,6 +459,12 @@ def custom_filter():
             def applied_max_rows(self, target):
                 return target.max_rows
 
+            def is_supported_by(self, engine):
+                # (only the iteration engines of the harness could ever run it; the SQL engine has no translation)
+                from lsst.daf.relation import iteration
+
+                return isinstance(engine, iteration.Engine)
+
         _CUSTOM_FILTER = AtLeastRows
     return _CUSTOM_FILTER
 
@@ -463,7 +472,7 @@ def custom_filter():
 EXHAUSTIVE_NOTE = (
     "grid: base = L0.to(T) followed by one (thorough: every two) downstream operation(s) of the 20 unary operations of the "
     "C04 grid; final operation = each of those 20 or a join (fixed operand as rhs / lhs, with / without predicate); "
-    "S in {SQL, iteration B}; 2 fixed targets; all option combinations"
+    "(S, T) in {(SQL, iteration A), (iteration B, iteration A), (iteration B, SQL)}; 2 fixed targets; all option combinations"
 )
 
 
@@ -480,14 +489,14 @@ def grid_cases(tier):
         ((1, 1, 0), (0, 1, 1), (1, 1, 0), (0, 0, 1), (0, 1, 1)),
     ]
     depth = 1 if tier == "quick" else 2
-    for S in (0, 2):
+    for S, T in ((0, 1), (2, 1), (2, 0)):
         for rows in targets:
             leaves = (
                 ("L0", (A, B, C), rows, S, "data", (len(rows), len(rows)), "plain"),
                 ("L1", (A, D), ((0, 7), (1, 8), (2, 9), (2, 6)), S, "data", (4, 4), "plain"),
             )
             for chain_ops in itertools.product(g, repeat=depth):
-                base = ("xfer", ("leaf", 0), 1)
+                base = ("xfer", ("leaf", 0), T)
                 ok = True
                 for op in chain_ops:
                     if well_formed(op, schema(base, leaves), frozenset()):
@@ -531,10 +540,12 @@ def describe(case):
 def attribute(case, v):
     """D12 (see C04): a projection inserted with backtracking is moved upstream of a deduplication."""
     universe, leaves, S, base, final, *rest = case
-    if v.kind == "result-not-executable" and final[0] == "proj" and str(v.extra.get("sig", "")).startswith(("KeyError@_engine.py:convert_column_expression", "ColumnError@_sort.py")):
+    if v.kind == "result-not-executable" and str(v.extra.get("sig", "")).startswith(("KeyError@_engine.py:convert_column_expression", "ColumnError@_sort.py")):
         from vf.core.known import TRIGGERS
 
-        if TRIGGERS["D10"]((final[0], base) + tuple(final[2:])):
+        # (the shape may be completed by the final operation or - in trees rooted in the SQL engine - sit in the base)
+        full = base if final[0] == "join" else (final[0], base) + tuple(final[2:])
+        if TRIGGERS["D10"](full):
             return "D10"
     if final[0] == "proj" and "backtrack=True" in str(v.extra.get("opts", "")) and v.kind in ("result-not-executable", "call-raised", "valid-op-rejected-with-ColumnError"):
         from vf.core.known import trig_recalculated_hidden_tag
